@@ -150,20 +150,37 @@ def _regex_chars(model, fi, call):
     import re._parser as P
     import re._constants as C
     f = call.func
-    if not isinstance(f, ast.Name):
-        return None
     cands = []
-    r = model.resolve_global(fi.module, f.id)
-    if r and r[0] == 'value':
-        cands += r[1]
-    d = model.param_default(fi, f.id)
-    if d is not None:
-        cands.append(d)
+    pats = []
+    if isinstance(f, ast.Name):
+        r = model.resolve_global(fi.module, f.id)
+        if r and r[0] == 'value':
+            cands += r[1]
+        d = model.param_default(fi, f.id)
+        if d is not None:
+            cands.append(d)
+    elif isinstance(f, ast.Attribute) and f.attr in ('search', 'match'):
+        if norm(f.value) == 're' and call.args:
+            pats.append(call.args[0])       # re.search(<pattern>, x)
+        elif isinstance(f.value, ast.Name):
+            # PAT.search(x) with PAT = re.compile(...)
+            r = model.resolve_global(fi.module, f.value.id)
+            if r and r[0] == 'value':
+                for v in r[1]:
+                    cands.append(ast.Attribute(value=v, attr=f.attr,
+                                               ctx=ast.Load()))
+        else:
+            cands.append(f)                 # re.compile(<p>).search(x)
+    else:
+        return None
     for v in cands:
         if isinstance(v, ast.Attribute) and v.attr in ('search', 'match') \
                 and isinstance(v.value, ast.Call) and \
                 norm(v.value.func) == 're.compile' and v.value.args:
-            ok, pat = model.fold(v.value.args[0], None, fi.module)
+            pats.append(v.value.args[0])
+    for pn in pats:
+        if True:
+            ok, pat = model.fold(pn, None, fi.module)
             if not ok:
                 continue
             tree = P.parse(pat)
